@@ -1702,6 +1702,9 @@ def _unique_internal(ar, indices, counts, return_inverse=False):
     if return_index or return_counts:
         for i, v in enumerate(r["values"]):
             m = ar == v
+            if v != v:
+                # np.unique collapses NaNs into one entry; NaN != NaN
+                m = ar != ar
             if return_index:
                 indices[m].min(keepdims=True, out=r["indices"][i : i + 1])
             if return_counts:
@@ -1867,7 +1870,12 @@ def unique(ar, return_index=False, return_inverse=False, return_counts=False):
         # index in axis `1` (the one of unknown length). Reduce axis `1`
         # through summing to get an array with known dimensionality and the
         # mapping of the original values.
-        matches = (ar[:, None] == out["values"][None, :]).astype(np.intp)
+        uvals = out["values"][None, :]
+        matches = ar[:, None] == uvals
+        if ar.dtype.kind in "fc":
+            # np.unique collapses NaNs into one entry; NaN != NaN
+            matches = matches | ((ar[:, None] != ar[:, None]) & (uvals != uvals))
+        matches = matches.astype(np.intp)
         inverse = (matches * out["inverse"]).sum(axis=1)
         if NUMPY_GE_200:
             inverse = inverse.reshape(orig_shape)
